@@ -105,6 +105,8 @@ class ClassInfo:
         for c in mro:
             if name in c.methods:
                 return c.methods[name]
+            if name in c.attrs:
+                return None         # a class-level assignment nearer in the MRO shadows inherited methods of that name
         return None
 
     def find_setter(self, name: str) -> Optional[FuncInfo]:
